@@ -41,21 +41,21 @@ type Failure struct {
 
 // Report is a worker's partial result (merged by the parent).
 type Report struct {
-	Evaluations int64            `json:"evaluations"`
-	Distinct    int64            `json:"distinct"`
-	Nontrivial  int64            `json:"nontrivial"`
-	Outcomes    map[string]int64 `json:"outcomes"`
-	Samples     []string         `json:"samples"`
+	Evaluations int64             `json:"evaluations"`
+	Distinct    int64             `json:"distinct"`
+	Nontrivial  int64             `json:"nontrivial"`
+	Outcomes    map[string]int64  `json:"outcomes"`
+	Samples     []string          `json:"samples"`
 	OutSamples  map[string]string `json:"out_samples"`
-	Failures    []Failure        `json:"failures"`
-	FailCount   map[string]int64 `json:"fail_count"` // by signature
-	Counters    map[string]int64 `json:"counters"`
-	MaxCounters map[string]int64 `json:"max_counters"`
+	Failures    []Failure         `json:"failures"`
+	FailCount   map[string]int64  `json:"fail_count"` // by signature
+	Counters    map[string]int64  `json:"counters"`
+	MaxCounters map[string]int64  `json:"max_counters"`
 	Notes       map[string]string `json:"notes"`
-	Incomplete  []string         `json:"incomplete"`
-	Died        string           `json:"died,omitempty"`
-	Rule        string           `json:"rule"`
-	Assumptions []string         `json:"assumptions"`
+	Incomplete  []string          `json:"incomplete"`
+	Died        string            `json:"died,omitempty"`
+	Rule        string            `json:"rule"`
+	Assumptions []string          `json:"assumptions"`
 }
 
 // Env is handed to the check's run function.
@@ -84,12 +84,12 @@ type Env struct {
 	Rule         string
 	// Track makes Begin record the current case in a tmpfs file so that a worker death
 	// (fatal error, stack overflow, deadline) is attributed to exactly that case.
-	Track bool
-	Assumptions  []string
-	maxFailKeep  int
+	Track       bool
+	Assumptions []string
+	maxFailKeep int
 }
 
-func (e *Env) Thorough() bool { return e.Tier == "thorough" }
+func (e *Env) Thorough() bool  { return e.Tier == "thorough" }
 func (e *Env) Replaying() bool { return e.replayDesc != "" || e.replayPrefix != nil }
 
 // D builds a canonical descriptor from k,v pairs. Values are made space-free.
@@ -289,8 +289,18 @@ type finding struct {
 	Commit    string            `json:"commit,omitempty"`
 }
 
+// loadFindings reads the committed known-findings files: known_findings.jsonl (index + fixed
+// records) and findings/<id>.jsonl (the open findings of one property).
 func loadFindings(id string) []finding {
-	f, err := os.Open(filepath.Join(Root, "known_findings.jsonl"))
+	var out []finding
+	for _, p := range []string{filepath.Join(Root, "known_findings.jsonl"), filepath.Join(Root, "findings", id+".jsonl")} {
+		out = append(out, loadFindingsFile(p, id)...)
+	}
+	return out
+}
+
+func loadFindingsFile(path, id string) []finding {
+	f, err := os.Open(path)
 	if err != nil {
 		return nil
 	}
@@ -305,7 +315,7 @@ func loadFindings(id string) []finding {
 		}
 		var x finding
 		if err := json.Unmarshal([]byte(l), &x); err != nil {
-			fmt.Fprintf(os.Stderr, "known_findings.jsonl: bad line: %v\n", err)
+			fmt.Fprintf(os.Stderr, "%s: bad line: %v\n", path, err)
 			os.Exit(2)
 		}
 		if x.Property == id && x.Status == "open" {
